@@ -217,6 +217,8 @@ pub struct Frame {
     pub max_live: usize,
     /// number of `BeforeJoinOne` points seen: the k-th one precedes the join of the k-th spawned worker
     pub joins: usize,
+    /// tasks the calling thread ran itself inside this frame (a library may count them as spawned)
+    pub inline: usize,
 }
 
 struct State {
@@ -827,6 +829,7 @@ fn hook_run_begin(info: &RunInfo) {
         log_end: usize::MAX,
         max_live: 0,
         joins: 0,
+        inline: 0,
     });
     st.log.push(Event {
         slot: 0,
@@ -908,7 +911,8 @@ fn hook_spawner_point(p: SpawnerPoint, n: usize) {
     }
     // handshake: wait (in real time, with a deterministic outcome) until the n spawned workers have registered
     let mut waited = 0u32;
-    let need = if p == SpawnerPoint::BeforeJoinOne { 0 } else { n };
+    // (a task the calling thread ran itself may be counted as spawned by the library: nobody registers for it)
+    let need = if p == SpawnerPoint::BeforeJoinOne { 0 } else { n.saturating_sub(st.frames[f].inline) };
     while st.frames[f].registered < need {
         let (g, t) = match sim().cv[me].wait_timeout(st, Duration::from_millis(500)) {
             Ok(x) => x,
@@ -924,7 +928,7 @@ fn hook_spawner_point(p: SpawnerPoint, n: usize) {
         if t.timed_out() {
             waited += 1;
             if waited > 360 {
-                do_abort(&mut st, "stall: spawned worker did not register within 180 s");
+                do_abort(&mut st, "harness: a worker the library reported as spawned did not register within 180 s");
                 return;
             }
         }
@@ -1024,6 +1028,16 @@ fn hook_worker_enter(chunk: usize) {
         // a thread that is already under the scheduler runs a task itself (e.g. the calling thread taking part
         // in the work): no new slot, its closures stay attributed to its own slot
         INLINE.with(|d| d.set(d.get() + 1));
+        if current_slot() == 0 {
+            let mut st = lock();
+            if st.active && !st.free {
+                if let Some(fr) = st.frames.last_mut() {
+                    if !fr.ended {
+                        fr.inline += 1;
+                    }
+                }
+            }
+        }
         event(Kind::Sp, SP_INLINE_BEGIN, chunk as u64, 0, true);
         return;
     }
